@@ -442,6 +442,16 @@ impl Eval {
                     "int32" => Ty::i32(),
                     "string" => Ty::Str,
                     "bool" => Ty::Bool,
+                    "unit" => Ty::Unit,
+                    "float64" => Ty::F64,
+                    "float32" => Ty::F32,
+                    "int8" => Ty::Int(IntKind::I8),
+                    "int16" => Ty::Int(IntKind::I16),
+                    "int64" => Ty::Int(IntKind::I64),
+                    "uint8" => Ty::Int(IntKind::U8),
+                    "uint16" => Ty::Int(IntKind::U16),
+                    "uint32" => Ty::Int(IntKind::U32),
+                    "uint64" => Ty::Int(IntKind::U64),
                     _ => Ty::Named(tn.clone(), targs.iter().map(|t| t.subst(&fr.tsubst)).collect()),
                 };
                 if tn == "int32" && m == "to_string" && self.find_impl(None, &ty, m).is_none() {
